@@ -16,15 +16,17 @@ import (
 type FaultKind int
 
 const (
-	FaultNone     FaultKind = iota
-	FaultOnce               // k-th Write returns (0, ErrInjected); later writes succeed
-	FaultFrom               // k-th and every later Write returns (0, ErrInjected)
-	FaultShortErr           // k-th Write accepts len-1 bytes and returns io.ErrShortWrite
-	FaultShortNil           // k-th Write accepts len-1 bytes and returns nil error
-	FaultOnceDrop           // like FaultOnce
+	FaultNone        FaultKind = iota
+	FaultOnce                  // k-th Write returns (0, ErrInjected); later writes succeed
+	FaultFrom                  // k-th and every later Write returns (0, ErrInjected)
+	FaultShortErr              // k-th Write accepts len-1 bytes and returns io.ErrShortWrite
+	FaultShortNil              // k-th Write accepts len-1 bytes and returns nil error
+	FaultOnceDrop              // like FaultOnce
+	FaultFullErrOnce           // k-th Write takes ALL the bytes and still returns ErrInjected (a tee, a quota layer, a deferred failure); later writes succeed
+	FaultFullErrFrom           // the same from the k-th Write on
 )
 
-var FaultNames = map[FaultKind]string{FaultNone: "none", FaultOnce: "err-once", FaultFrom: "err-from", FaultShortErr: "short-err", FaultShortNil: "short-nil"}
+var FaultNames = map[FaultKind]string{FaultNone: "none", FaultOnce: "err-once", FaultFrom: "err-from", FaultShortErr: "short-err", FaultShortNil: "short-nil", FaultFullErrOnce: "full-count-err-once", FaultFullErrFrom: "full-count-err-from"}
 
 var ErrInjected = errors.New("verif: injected write failure")
 
@@ -71,6 +73,12 @@ func (w *CountingWriter) Write(p []byte) (int, error) {
 			w.Fired = true
 			w.Missed += len(p)
 			return 0, ErrInjected
+		case FaultFullErrOnce, FaultFullErrFrom:
+			if w.Calls == w.K || w.Kind == FaultFullErrFrom {
+				w.Fired = true
+				w.Buf.Write(p)
+				return len(p), ErrInjected
+			}
 		case FaultShortErr, FaultShortNil:
 			if w.Calls == w.K {
 				w.Fired = true
